@@ -128,14 +128,20 @@ func (backupManager *BackupManager) DoNativeBackup() error {
 		return err
 	}
 	backupFilename := backupManager.backupLocation + string(os.PathSeparator) + "datahub-backup.kv"
-	var file *os.File
-	if backupManager.fileExists(backupFilename) {
-		file, _ = os.Open(backupFilename)
-	} else {
-		file, _ = os.Create(backupFilename)
+	// every run appends what changed since the previous run to the backup file
+	file, err := os.OpenFile(backupFilename, os.O_WRONLY|os.O_CREATE|os.O_APPEND, 0o600)
+	if err != nil {
+		return err
 	}
 	defer file.Close()
-	since, _ := backupManager.store.database.Backup(file, backupManager.lastID)
+	since, err := backupManager.store.database.Backup(file, backupManager.lastID)
+	if err != nil {
+		return err
+	}
+	err = file.Sync()
+	if err != nil {
+		return err
+	}
 	backupManager.lastID = since
 	verifhook.Point("backup.afterBackup")
 
@@ -155,7 +161,7 @@ func (backupManager *BackupManager) StoreLastID() error {
 }
 
 func (backupManager *BackupManager) LoadLastID() (uint64, error) {
-	lastIDFilename := backupManager.backupLocation + string(os.PathSeparator) + "datahub-backupManager.lastseen"
+	lastIDFilename := backupManager.backupLocation + string(os.PathSeparator) + "datahub-backup.lastseen"
 	file, err := os.Open(lastIDFilename)
 	if err != nil {
 		return 0, nil
